@@ -24,7 +24,14 @@ KNOWN_FAIL = "raft::filestore::raftlog::tests::write_index_equal_error_when_inde
 def cargo_test(dst, flt=None):
     env = dict(os.environ, CARGO_NET_OFFLINE="true", CARGO_TARGET_DIR=TARGET, RUST_BACKTRACE="0")
     cmd = ["cargo", "test", "--lib", "--offline", "-p", "rnacos"] + ([flt] if flt else []) + ["--", "--test-threads", "4"]
-    p = subprocess.run(cmd, cwd=dst, env=env, capture_output=True, text=True, timeout=3600)
+    import fcntl
+    os.makedirs(TARGET, exist_ok=True)
+    with open(os.path.join(TARGET, ".vx_native_lock"), "w") as lk:      # same lock as lib/native.py
+        fcntl.flock(lk, fcntl.LOCK_EX)
+        sys.path.insert(0, os.path.dirname(os.path.abspath(__file__)))
+        import native
+        native.touch_sources(dst)
+        p = subprocess.run(cmd, cwd=dst, env=env, capture_output=True, text=True, timeout=3600)
     out = p.stdout + p.stderr
     m = re.search(r"test result: \w+\. (\d+) passed; (\d+) failed", out)
     failed = re.findall(r"^test (\S+) \.\.\. FAILED", out, re.M)
